@@ -134,6 +134,11 @@ class World:
         self.net = SimNetwork(self.loop, faults)
         self.clock = WallClock(self.loop, clock)
         _putil.time = self.clock.read
+        # every other reading of the wall clock by the code under test (time.time()) sees the simulated clock too
+        import time as _time
+        if not hasattr(World, "_real_time"):
+            World._real_time = _time.time
+        _time.time = self.clock.read
         # seam for code that measures elapsed time (USM engine-time estimate): virtual monotonic clock
         import puresnmp_plugins.security.usm as _usm
         if hasattr(_usm, "monotonic"):
@@ -191,6 +196,8 @@ class World:
         self.loop.run_until_complete(_idle())
 
     def close(self) -> None:
+        import time as _time
+        _time.time = World._real_time
         try:
             self.loop.close()
         except Exception:
